@@ -3,6 +3,7 @@ import TriompheModel.WM.Example
 import TriompheModel.WM.Weak
 import TriompheModel.Generated.Atomics
 import TriompheModel.Props.Gates
+import TriompheModel.WM.RelSeq
 /-!
 # C02 — concurrent clone/drop: one destroyer, ordered after every thread's last access
 
@@ -116,6 +117,15 @@ theorem C02_release_needed :
     ¬ Weak.exX.hb (.oth (1 : Weak.EA)) (.oth (3 : Weak.EA)) ∧
     ¬ Weak.exX.hb (.oth (3 : Weak.EA)) (.oth (1 : Weak.EA)) :=
   ⟨Weak.ex_consistent, Weak.ex_protocol, Weak.release_needed.1, Weak.release_needed.2⟩
+
+/-- the same under the *primitive* statement of synchronises-with (release sequences as in
+[intro.races]/5, RMW atomicity; `WM/RelSeq.lean` derives the index form from it) -/
+theorem C02_destroy_after_all_prim (hc : ConsistentPrim X) (hp : Protocol X Generated.decOrd fenceOrd)
+    {f : X.A} {k : Nat} (hf : X.kind f = .destroy k) :
+    k + 1 = X.ops.length ∧
+    (∀ a h, (X.kind a).via = some h → X.hb (.oth a) (.oth f)) ∧
+    (∀ i, i < X.ops.length → i ≠ k → X.hb (.rmw i) (.oth f)) :=
+  destroy_after_all_prim hc hp obl_dec_release acq_of_obl hf
 
 /-! ## the other way memory is released: moving the value out
 
